@@ -5,6 +5,11 @@ ROOT = os.path.join(os.path.dirname(os.path.abspath(__file__)), "..")
 props = [json.loads(l) for l in open(os.path.join(ROOT, "properties.jsonl")) if l.strip()]
 
 CLAIMS = {
+    "C19": dict(
+        text="Lean 4 theorems, one per fault class, about the visitor-level decoder model applied to a conformant bundle's encoding with one injected fault (unbounded in every field, block count and surrounding bytes): any byte after the end (reject_trailing_bytes), missing break (reject_missing_break), primary block: CRC field absent against the CRC type, CRC field of the wrong length, an extra trailing item / CRC field against CRC type 0 (reject_primary_*), a negative integer / float / null / text / byte string / array / map / boolean in place of the version (reject_primary_version_kind, 11 item kinds), destination EID with unknown scheme code / ipn node 0 / extra item / missing scheme (reject_primary_dst_eid); canonical block: CRC field absent, CRC field of the wrong length (reject_canon_*), bad block-type-specific data for bundle age / hop count / previous node (reject_bad_btsd, enumerated items); and `accepted` shows the un-faulted encoding decodes, so the rejections are due to the fault. Tie to the code: for every generated conformant bundle (bytes from the independent reference encoder) every fault of all 16 classes of the property is injected at item level at every applicable position by an independent item scanner; the real decoder must answer with an error and agree with the model.",
+        note="Fault classes of the property NOT yet covered by a theorem (correspondence only): missing mandatory item at arbitrary positions, creation-timestamp and ipn-pair arity, wrong-kind items at positions other than the version, array-kind and bstr-kind substitutions, faults in source/report-to EIDs and in EIDs inside previous-node blocks, canonical-block extra item. Trusted: Lean kernel; axioms propext, Classical.choice, Quot.sound.",
+        technique="Lean 4 proof (error-propagation lemmas through the visitor model, per fault class) + exhaustive-per-bundle fault-injection correspondence",
+        design="§6 C19"),
     "C06": dict(
         text="PARTIAL. Lean 4 theorem Bp7.C06.decode_no_panic: for EVERY byte string the model of Bundle::try_from(&[u8]) — a model of serde_cbor's visitor-driven parser with its u8 depth counter that is not restored on the 'recursion limit exceeded' return, and of EndpointID's visitor that swallows that error and carries on — returns a bundle or an error, never a panic: every reader is entered with a counter >= 1 (compositional Safe/Good invariant over all ~35 readers, incl. nested from_slice for block data); decode_admin_no_panic for payloads read as administrative records. The operations a receiving node performs on a decoded bundle are total functions in the model because the fixed Rust code only uses total operations there (saturating/checked/u128 arithmetic, unwrap_or) — the pinned-tree panics are kept as witnesses (dtnNodeNamePinned, unhexifyPinned, hop count 255, …) and the number of explicit panic sites per module is re-extracted and pinned on every run. Tie to the code: all byte strings of <= 2 bytes (quick) / <= 3 bytes (thorough) and structure-aware mutants (item substitution from a dictionary, truncation, duplication, deletion, type confusion, length tampering, bit flips, splices, depth probes around the 128-level limit) go through the real decoder and the model (ok/err/panic and decoded value compared); on what decodes, validate / id / payload / previous_node / crc_valid / to_cbor / update_extensions / add_canonical_block results are compared as well and ~20 further receive-path calls run under catch_unwind; in two build profiles (overflow checks on and off).",
         note="NOT exhibited by the model: actual stack overflow and allocator failure. They are bounded by construction only: recursion is bounded by serde_cbor's counter (<= 128 nested frames, which the model shares), and the decoder copies byte/text strings already present in the input; the 1 MiB cautious pre-allocation of serde for Vec<BundleStatusItem> and the 4096-byte cap of serde_bytes are not modelled (no allocation meter was built). Trusted: Lean kernel; axioms propext, Classical.choice, Quot.sound; catch_unwind reports panics faithfully; 64-bit usize.",
